@@ -142,16 +142,38 @@ func (c *Client) HandleMessage(p stanza.Message, r xmlstream.TokenReadEncoder) e
 	d := xml.NewTokenDecoder(r)
 	msg := struct {
 		stanza.Message
-		X Invitation `xml:"http://jabber.org/protocol/muc#user x"`
+		X struct {
+			XMLName xml.Name
+			Invite  []struct {
+				To       jid.JID `xml:"to,attr"`
+				Reason   string  `xml:"reason"`
+				Continue struct {
+					XMLName xml.Name
+					Thread  string `xml:"thread,attr"`
+				} `xml:"continue"`
+			} `xml:"invite"`
+			Pass string `xml:"password"`
+		} `xml:"http://jabber.org/protocol/muc#user x"`
 	}{}
 	err := d.Decode(&msg)
 	if err != nil {
 		return err
 	}
 
-	if msg.X.XMLName.Local != "" && c.HandleInvite != nil {
-		c.HandleInvite(msg.X)
+	if c.HandleInvite == nil {
 		return nil
+	}
+	// One callback per invitation: the payload may hold several of them or none
+	// at all (eg. a status notification or a declined invitation).
+	for _, invite := range msg.X.Invite {
+		c.HandleInvite(Invitation{
+			XMLName:  msg.X.XMLName,
+			Continue: invite.Continue.XMLName.Local != "",
+			JID:      invite.To,
+			Password: msg.X.Pass,
+			Reason:   invite.Reason,
+			Thread:   invite.Continue.Thread,
+		})
 	}
 	return nil
 }
